@@ -28,7 +28,8 @@ ASSUMPTIONS = [
     'analytic mechanistic model is harness code; reference integrator for PKPD models']
 REQUIRED = ['kind:em', 'kind:pop', 'kind:ll', 'kind:hier', 'kind:fpost', 'kind:pred', 'kind:ctrl', 'kind:mech',
             'reconfigured', 'exhaustive', 'op:set_n_ids', 'op:fix', 'op:set_dim_names', 'op:set_parameter_names',
-            'op:set_population_parameters', 'op:rejected_selection', 'rejected_selection:cov'] + \
+            'op:set_population_parameters', 'op:rejected_selection', 'rejected_selection:cov',
+            'pred:reduced_error_models:multi_output'] + \
            ['controller_program:%s' % k for k in ('hetero_first', 'hetero_middle', 'hetero_only', 'no_hetero', 0, 1, 2, 3, 4, 5, 6)]
 POP_OPS = ['set_n_ids', 'set_dim_names', 'set_parameter_names', 'fix', 'release', 'set_population_parameters',
            'rejected_selection', 'wrap']
@@ -631,6 +632,25 @@ def check(case):
                 out = pm.sample(x[1:], [0.5, 1.0], n_samples=2, seed=1, return_df=False)
                 case.equal(np.shape(out), (ll['n_out'], 2, 2), 'sample shape after fixing', kind='shape')
                 pm.fix_parameters({names[0]: None})
+            # error models that are reduced BEFORE the predictive model is built (what the controller hands over after
+            # fix_parameters): the free parameters carry the documented names, each once
+            ems2, drop, pos = [], [], ll['n_par']
+            for e_spec, em in zip(ll['ems'], llbuild.build_error_models(ll)):
+                r = chi.ReducedErrorModel(em)
+                if ref.EM_NPAR[e_spec['kind']] == 2:
+                    r.fix_parameters({em.get_parameter_names()[0]: 0.3})
+                    drop.append(pos)
+                ems2.append(r)
+                pos += ref.EM_NPAR[e_spec['kind']]
+            pm2 = chi.PredictiveModel(llbuild.build_model(ll), ems2)
+            want2 = [nm for i, nm in enumerate(llbuild.ll_names(ll)) if i not in drop]
+            case.equal(pm2.n_parameters(), len(want2), 'n_parameters of a predictive model over reduced error models')
+            case.equal(pm2.get_parameter_names(), want2, 'names of a predictive model over reduced error models')
+            out = pm2.sample(np.array([0.8 + 0.07 * k for k in range(len(want2))]), [0.5, 1.0], n_samples=2, seed=1,
+                             return_df=False)
+            case.equal(np.shape(out), (ll['n_out'], 2, 2), 'sample shape over reduced error models', kind='shape')
+            if ll['n_out'] >= 2:
+                case.labels.append('pred:reduced_error_models:multi_output')
             if s['pop'] is not None:
                 pop = s['pop']
                 popm = ref.build_pop(pop, pm.get_parameter_names(), 2)
